@@ -697,6 +697,7 @@ def sample_children_matrix(sample_parents: A[i8, 2]) -> A[i8, 2]:
     # is padded with -1: every trio in which p is a parent, and no other, is visited by the Markov-blanket loops
     ensures(forall(0, NS, lambda c: forall(0, NS, lambda p: implies(ISCH(sample_parents, c, p), CC(sample_parents, p, c) < result.shape[1] and result[p, CC(sample_parents, p, c)] == c))))
     ensures(forall(0, NS, lambda p: forall(0, result.shape[1], lambda x: ite(x < CC(sample_parents, p, NS), 0 <= result[p, x] and result[p, x] < NS and ISCH(sample_parents, result[p, x], p), result[p, x] == -1))))
+    ensures(forall(0, NS, lambda p: CC(sample_parents, p, NS) <= result.shape[1]))
     with defs():
         NS = len(sample_parents)
     with loop(0):
